@@ -3,6 +3,6 @@
 name="$1"; shift
 cd /repo && git apply /verif/seeded/$name/patch.diff || { echo "patch does not apply"; exit 2; }
 for pid in "$@"; do
-  (cd /verif && VERIF_EVIDENCE_DIR=/tmp/seed_evidence ./check $pid --tier quick | grep -v "^INFO" | cut -c1-260 | tail -4; echo "exit=${PIPESTATUS[0]}")
+  (cd /verif && VERIF_EVIDENCE_DIR=/tmp/seed_evidence VERIF_REPLAY_DIR=/tmp/seed_replays ./check $pid --tier quick | grep -v "^INFO" | cut -c1-260 | tail -4; echo "exit=${PIPESTATUS[0]}")
 done
 cd /repo && git checkout -- . && git status --short | head -3
